@@ -273,10 +273,14 @@ def analysis_history_cases(run):
             before = {k: copy.deepcopy(idnt.fit_properties.get(k))
                       for k in ("hash", "chi_sqr", "xmin", "xmax", "success")}
             import warnings
+            from nanite.fit import IndentationFitter
             with warnings.catch_warnings():
                 warnings.simplefilter("ignore")
                 idnt.compute_emodulus_mindelta()
                 idnt.estimate_optimal_mindelta()
+                # a fitter of the caller's own on the fitted curve (another
+                # range): what the curve reports stays the curve's fit
+                IndentationFitter(idnt, range_x=[-5e-7, 5e-7]).fit()
         except BaseException as e:
             run.failing(SITE, key, f"{cfg}: raised {type(e).__name__}: {e}",
                         payload={"kind": "rerun"})
